@@ -201,14 +201,14 @@ def run(tier, seed):
         trans += r3.generated
     mc(consts(FILES, MaxOps=1, DirRule='"second_part"'), "extension = second dot-part", expect="DirModeIsPerFile")
     cov["negative_controls"] = ["DirRule=second_part refutes DirModeIsPerFile"]
-    files = FILES if thorough else FILES[:7] + FILES[8:]
-    g = mc(consts(files, MaxOps=2, WithHist="TRUE", Targets='{"missing", "existing", "nested"}' if thorough else '{"missing", "nested"}'), "generation")
+    files = FILES
+    g = mc(consts(files, MaxOps=2, WithHist="TRUE", Targets='{"missing", "existing", "nested"}'), "generation")
     behs = [b for b in g.beh if b["hist"]]
     rnd = random.Random(seed)
-    if not thorough and len(behs) > 1500:
+    if not thorough and len(behs) > 3000:
         ones = [b for b in behs if len(b["hist"]) == 1]
         twos = [b for b in behs if len(b["hist"]) == 2]
-        behs = ones + rnd.sample(twos, 1500 - len(ones))
+        behs = ones + rnd.sample(twos, 3000 - len(ones))
     tasks = [(b, files, seed + i, thorough and i % 10 == 0) for i, b in enumerate(behs)]
     res = C.pool().map(_replay, tasks, 8)
     for (b, _, sd, _), probs in zip(tasks, res):
